@@ -53,6 +53,8 @@ def check(m, run):
     reads_through_getters(m, run)
     run.floor('WS1.weight-slot', 12, '6 converters x (coordinate map, domain, slot)')
     run.floor('CV1.convert-copies-same-axis', 20, '4 + 7 + 10 assignments of _convert')
+    from .. import skel_drivers as _sdk
+    _sdk.kd5(m, run)       # rational setters accept homogeneous points of the lowest admissible dimension and store floats in fresh lists
 
 
 # ---------------------------------------------------------------------------------------------- IV8
